@@ -30,6 +30,22 @@ NOT_REQUEST_HELPERS = {
 }
 
 
+def _pure_code_projection(text: str) -> bool:
+    """`<error>.get('code'[, <constant default>])` or `<error>['code']` and nothing around it: an `or <default>`,
+    an int() coercion or arithmetic would replace some of the server's codes (0 is falsy)."""
+    try:
+        n = ast.parse(text.replace("<", "(").replace(">", ")"), mode="eval").body
+    except SyntaxError:
+        return False
+    if isinstance(n, ast.Subscript) and isinstance(n.slice, ast.Constant) and n.slice.value == "code":
+        return "error" in ast.unparse(n.value)
+    if isinstance(n, ast.Call) and isinstance(n.func, ast.Attribute) and n.func.attr == "get" and n.args and isinstance(n.args[0], ast.Constant) and n.args[0].value == "code" and not n.keywords:
+        if len(n.args) == 2 and not isinstance(n.args[1], (ast.Constant, ast.Name, ast.UnaryOp, ast.Attribute)):
+            return False
+        return "error" in ast.unparse(n.func.value)
+    return False
+
+
 def check(P: Project, R: Report) -> None:
     R.rule("R1", "NON_RETRYABLE_ERRORS and RETRYABLE_ERRORS are disjoint and every named code constant belongs to exactly one of them; ERROR_MESSAGES names the same codes")
     R.rule("R2", "is_retryable_error is total: on every path it returns the complement of membership in NON_RETRYABLE_ERRORS and never raises")
@@ -169,7 +185,7 @@ def check(P: Project, R: Report) -> None:
             code_arg = kw["code"]
         elif len(call.args) >= 2:
             code_arg = subst_text(call.args[1], st)
-        ok_code = code_arg is not None and code_arg == code_term and ".get('code'" in an.origin(code_arg)
+        ok_code = code_arg is not None and code_arg == code_term and _pure_code_projection(an.origin(code_arg))
         R.ob("R3", key + " carries the code", ok_code, f"{proc.module.rel}:{node.lineno}",
              f"code argument `{code_arg}` vs classified `{code_term}` (origin {an.origin(code_arg or '')})",
              sample=f"R3 {proc.qual}: error present ∧ {chosen} -> raise {short}({', '.join(args)[:120]})")
